@@ -27,7 +27,7 @@ func init() {
 	core.Register(&core.Property{
 		ID:    "C08",
 		Level: "model_checking",
-		Rule: "universe = (a) every sequence of <=5 (thorough <=6) lines over 16 line shapes (headers good/bad, '#', blank, metavariable declarations good/bad, -/+/context lines, elision lines) with and without final newline; (b) every sequence of <=4 (thorough <=5) tokens over a 33-token alphabet as the '-' side against a fixed '+' side and vice versa; (c) every byte prefix of every patch in /repo/testdata and /repo/examples; (d) the radius-1 token neighbourhood of each of those patches (each token deleted, duplicated, swapped with its neighbour, replaced by each alphabet token); (e) well-formed but ill-typed patches: every metavariable kind in every slot kind on either side with captures of every filler kind. Each runs patch.Parse and, if accepted, Apply on target files that contain every construct; a slice also through the CLI (-p and stdin). " +
+		Rule: "universe = (a) every sequence of <=5 (thorough <=6) lines over 16 line shapes (headers good/bad, '#', blank, metavariable declarations good/bad, -/+/context lines, elision lines) with and without final newline; (b) every sequence of <=4 (thorough <=5) tokens over a 33-token alphabet as the '-' side against a fixed '+' side and vice versa; (c) every byte prefix of every patch in /repo/testdata and /repo/examples; (d) the radius-1 token neighbourhood of each of those patches (each token deleted, duplicated, swapped with its neighbour, replaced by each alphabet token); (f) the radius-1 byte neighbourhood of those patches (each byte deleted; each of 14 (thorough 31) hostile bytes incl. NUL, 0xff, CR inserted before / written over every position); (g) every real patch and 7 stress patches against every construct of the catalogue in context and against deeply nested / long sources (nesting 10..1000); (e) well-formed but ill-typed patches: every metavariable kind in every slot kind on either side with captures of every filler kind. Each runs patch.Parse and, if accepted, Apply on target files that contain every construct; a slice also through the CLI (-p and stdin). " +
 			"Oracle: terminates (watchdog), no panic or fatal error, and either success or an error value / non-zero exit with a diagnostic. non-trivial = the patch is accepted by patch.Parse (the engine runs)",
 		Assumptions: []string{"a case that does not return within the watchdog limit of 10 s (normal cost < 1 ms) is re-run in isolation before it is reported as a hang"},
 		Bounds: func(tier string) map[string]any {
@@ -197,6 +197,66 @@ func c08Gen(tier string, emit func(any)) {
 					emit(&C08Case{Family: "d-token-replace", Patch: splice(offs[k], end, a), Files: files})
 				}
 			}
+		}
+	}
+	// (f) byte neighbourhood of real patches: every byte deleted, and every byte of a hostile alphabet
+	// inserted before / written over every position
+	hostile := []byte{0x00, 0xff, '\r', '\n', '@', '#', '.', '-', '+', ' ', '{', '(', '"', '`'}
+	if tier == "thorough" {
+		hostile = append(hostile, '\t', '}', ')', '\'', ',', ';', ':', '=', '*', '[', ']', '/', '\\', '0', 'x', 0xc3, 0xef)
+	}
+	for i, p := range patches {
+		files := inputs[i]
+		if len(files) == 0 {
+			files = c08Targets[:1]
+		}
+		if tier != "thorough" && len(p) > 400 {
+			continue // quick: the byte neighbourhood of the shorter patches
+		}
+		for n := 0; n < len(p); n++ {
+			emit(&C08Case{Family: "f-byte-delete", Patch: p[:n] + p[n+1:], Files: files})
+			for _, b := range hostile {
+				emit(&C08Case{Family: "f-byte-insert", Patch: p[:n] + string([]byte{b}) + p[n:], Files: files})
+				if p[n] != b {
+					emit(&C08Case{Family: "f-byte-replace", Patch: p[:n] + string([]byte{b}) + p[n+1:], Files: files})
+				}
+			}
+		}
+	}
+	// (g) targets: every real patch against every construct of the catalogue in context, and against
+	// deeply nested / very long (but small) sources
+	var hostileTargets []string
+	for _, k := range gen.Constructs() {
+		switch k.Kind {
+		case "expr":
+			hostileTargets = append(hostileTargets, "package p\n\nfunc _() {\n\tfoo("+k.Src+")\n\t_ = "+k.Src+"\n}\n")
+		case "stmts":
+			hostileTargets = append(hostileTargets, "package p\n\nfunc _() {\n\t"+strings.ReplaceAll(k.Src, "\n", "\n\t")+"\n}\n")
+		case "decl":
+			hostileTargets = append(hostileTargets, "package p\n\n"+k.Src+"\n")
+		}
+	}
+	for _, d := range []int{10, 30, 100, 1000} {
+		hostileTargets = append(hostileTargets,
+			"package p\n\nvar v = "+strings.Repeat("(", d)+"foo(1)"+strings.Repeat(")", d)+"\n",
+			"package p\n\nvar v = "+strings.Repeat("foo(", d)+"1"+strings.Repeat(")", d)+"\n",
+			"package p\n\nfunc f() {\n"+strings.Repeat("{\n", d)+"foo(1)\n"+strings.Repeat("}\n", d)+"}\n",
+			"package p\n\nfunc f() {\n"+strings.Repeat("if c {\n", d)+"x := foo(1)\n_ = x\n"+strings.Repeat("}\n", d)+"}\n",
+			"package p\n\nvar v = foo(1"+strings.Repeat(", a", d)+")\n",
+			"package p\n\nfunc f() {\n"+strings.Repeat("\tfoo(1)\n\tbar(2)\n", d)+"}\n",
+			"package p\n\nvar v = 1"+strings.Repeat(" + foo(1)", d)+"\n",
+			"package p\n\nvar v = a"+strings.Repeat(".b", d)+"\n")
+	}
+	for _, t := range hostileTargets {
+		if parses(t) != nil {
+			continue
+		}
+		for _, p := range patches {
+			emit(&C08Case{Family: "g-target", Patch: p, Files: []string{t}})
+		}
+		for _, p := range []string{"@@\nvar x expression\n@@\n-foo(x)\n+bar(x, x)\n", "@@\nvar x expression\n@@\n-foo(..., x, ..., x, ...)\n+bar(x)\n", "@@\nvar x identifier\n@@\n x := foo(1)\n ...\n-_ = x\n+use(x)\n",
+			"@@\nvar x, y expression\n@@\n-x + y\n+y + x\n", "@@\n@@\n {\n   ...\n-  foo(1)\n+  bar(1)\n   ...\n }\n", "@@\nvar x expression\n@@\n-(x)\n+x\n", "@@\nvar x identifier\n@@\n-a.x\n+a.x()\n"} {
+			emit(&C08Case{Family: "g-target-stress", Patch: p, Files: []string{t}})
 		}
 	}
 	// (e) ill-typed but well-formed
